@@ -1,3 +1,4 @@
+import BalmProofs.OwnBridge
 import BalmProofs.AttrBridge
 import BalmProofs.FallbackSpec
 import BalmProofs.SymHyp
